@@ -122,12 +122,29 @@ def run(prog, ctx):
         except (formula.Uneval, KeyError) as u:
             law("C15.M", "criterion", None, "merge criterion not evaluable: %r" % (u,))
         # extremes are never merged: the criterion is reached only when current != 1 and current != len - 1
+        # by value over (current, len): the criterion block is reached for every position except 1 and len - 1
+        fp = C.facts_pred(s, d[0])
         fx = s.cmp_facts_at(d[0])
-        ne = [x for x in fx if x[0] == "Ne" and len(x) == 3]
-        first = any(1 in (C.const_of(x[1]), C.const_of(x[2])) for x in ne)
-        last = any(C.is_bin(y, "Sub") and C.const_of(y[3]) == 1 and y[2][0] == "len" for x in ne for y in (x[1], x[2]))
-        law("C15.M", "extremes", first and last, "the merge criterion is evaluated for the first or the last element of the sorted run (guards found: %s); the extreme centroids must stay single samples" % [
-            (show(x[1]), show(x[2])) for x in ne], dm.id)
+        keys = set()
+        for x in fx:
+            for y in x[1:]:
+                if isinstance(y, tuple):
+                    keys |= set(formula.leaves(y))
+        cur_k = [k for k in keys if not k.startswith("len(") and "." not in k and ("len(%s)" % k) not in keys]
+        len_k = [k for k in keys if k.startswith("len(")]
+        verdict = None
+        witness = ""
+        if len(cur_k) == 1 and len(len_k) == 1:
+            verdict = True
+            for n_ in (2, 3, 4, 7, 50):
+                for c_ in range(1, n_):
+                    holds, n_ev = fp({"@prog": prog, cur_k[0]: c_, len_k[0]: n_})
+                    if n_ev == 0:
+                        verdict = None
+                    elif verdict is not None and holds != (c_ != 1 and c_ != n_ - 1):
+                        verdict = False
+                        witness = "position %d of %d %s the criterion" % (c_, n_, "reaches" if holds else "does not reach")
+        law("C15.M", "extremes", verdict, "the merge criterion must be evaluated for every element of the sorted run except the first and the last (they stay single samples): %s" % witness, dm.id)
         # every other definition of the flag is `false`
         others = [s.at(dd[0], dd[1]).rvalue(dm.blocks[dd[0]].stmts[dd[1]][2]) for dd in dm.defs()[l] if dd[2] == "assign" and dd != d]
         law("C15.M", "default", all(o in (("const", False), ("const", 0)) for o in others), "the merge flag has a default other than `false`: %s" % [show(o) for o in others], dm.id)
